@@ -13,6 +13,7 @@ from . import core
 # property id -> (module, level)
 CHECKS = {
     "C06": ("c06", "model_checking"),
+    "C01": ("c01", "model_checking"),
     "C02": ("c02", "model_checking"),
     "C07": ("c07", "model_checking"),
     "C10": ("c10", "model_checking"),
